@@ -479,6 +479,7 @@ type Contract struct {
 	Family   string // non-empty: pattern contract
 	Decreases map[int]Expr
 	Establishes map[int][]*Clause // checked on loop entry only
+	Implicit bool   // synthesised frame-only contract (frame sweep)
 	Before   map[string][]*Clause // proof hints: asserted (then assumed) before a call to the named callee
 }
 
